@@ -587,17 +587,19 @@ Proof.
 Qed.
 
 (* ---- A.4 unknown line_endings value ----
-   The value must not be an integer zero ("0", "00", "-0"): the reader converts it to the int 0, which is falsy,
-   and treats the option as absent (see [unknown_le_zero_refuted] in props/C03_defects.v). *)
+   Every grammatical value other than "unix" and "dos", integers included.  (Until pydiffx fix D19 this theorem
+   carried the premise [spec_conv v <> VInt 0]: the reader tested [if line_endings:], the values "0", "00", "-0"
+   convert to the falsy int 0, and the option was treated as absent: the file was accepted.  Since D19 the test is
+   [if line_endings is not None:], see [C03_unknown_le_zero_rejected] in props/C03_defects.v.) *)
 Theorem unknown_line_endings_file : forall f k s orc chunk v,
   wf_file f = true -> oracle_ok_file orc f -> nth_error (ff_sections f) k = Some s ->
   sid_kind (fs_id s) <> SContainer -> spec_valb v = true ->
-  beq v (B "unix") = false -> beq v (B "dos") = false -> spec_conv v <> VInt 0 ->
+  beq v (B "unix") = false -> beq v (B "dos") = false ->
   0 < chunk -> (Z.of_nat (length (render_file (inject (d_unknown_le v) f k))) <= sys_maxsize)%Z ->
   read_all orc chunk (render_file (inject (d_unknown_le v) f k))
   = (firstn k (spec_records f), TParse (sec_line f k + 1) None).
 Proof.
-  intros f k s orc chunk v Hwf Horc Hk Hkind Hval Hu Hd Hz Hc Hmax.
+  intros f k s orc chunk v Hwf Horc Hk Hkind Hval Hu Hd Hc Hmax.
   apply (header_defect_file (d_unknown_le v) f k s orc chunk 1 Hwf Horc Hk Hc Hmax).
   intros st valid encs pl rest HI Hrem.
   destruct (wf_at f k s Hwf Hk) as [_ Hws]. destruct (wf_section_inv _ _ _ Hws) as (Hord & Hblank & Hpairs & Henc & _).
@@ -633,11 +635,8 @@ Proof.
   - unfold RS.indent_valid. destruct kk; cbn [RS.indent_of]; try reflexivity.
     apply indent_valid_opts. unfold indent_ok. rewrite Oind. exact (Hind (HkP eq_refl)).
   - rewrite opt_get_model. unfold ps'. rewrite opt_set_same. cbn [option_map].
-    destruct (spec_conv v) as [z|w] eqn:E; cbn [RS.le_unknown].
-    + intros ->. apply Hz. reflexivity.
-    + apply spec_conv_str_inv in E. subst w. split.
-      * unfold spec_valb in Hval. apply andb_true_iff in Hval. apply HeaderFacts.nonempty_true. apply Hval.
-      * apply newline_formats_keys; assumption.
+    destruct (spec_conv v) as [z|w] eqn:E; cbn [RS.le_unknown]; [exact I|].
+    apply spec_conv_str_inv in E. subst w. apply newline_formats_keys; assumption.
 Qed.
 
 (* ================================================================================================ *)
@@ -939,7 +938,7 @@ Definition applicable (f : ffile) (k : nat) (s : fsection) (d : defect) : Prop :
   | DMissingLength => sid_kind (fs_id s) <> SContainer
   | DUnknownLineEndings v =>
       sid_kind (fs_id s) <> SContainer /\ spec_valb v = true /\
-      beq v (B "unix") = false /\ beq v (B "dos") = false /\ spec_conv v <> VInt 0
+      beq v (B "unix") = false /\ beq v (B "dos") = false
   | DFormatNotJson v => sid_kind (fs_id s) = SMeta /\ spec_valb v = true /\ beq v (B "json") = false
   | DInvalidJson =>
       exists key, meta_key s = Some key /\ Forall (fun s0 => meta_key s0 <> Some key) (firstn k (ff_sections f))
@@ -983,8 +982,8 @@ Proof.
   - destruct Happ as (Hid & Hval & Hv). split; [exact (bad_version_file f k s orc chunk v Hwf Horc Hk Hid Hval Hv Hc Hmax)|lia].
   - split; [exact (missing_version_file f k s orc chunk Hwf Horc Hk Happ Hc Hmax)|lia].
   - split; [exact (missing_length_file f k s orc chunk Hwf Horc Hk Happ Hc Hmax)|lia].
-  - destruct Happ as (Hkind & Hval & Hu & Hd & Hz).
-    split; [exact (unknown_line_endings_file f k s orc chunk v Hwf Horc Hk Hkind Hval Hu Hd Hz Hc Hmax)|].
+  - destruct Happ as (Hkind & Hval & Hu & Hd).
+    split; [exact (unknown_line_endings_file f k s orc chunk v Hwf Horc Hk Hkind Hval Hu Hd Hc Hmax)|].
     destruct (wf_content_facts _ _ _ Hws Hkind) as (_ & _ & _ & _ & Hn). lia.
   - destruct Happ as (Hkind & Hval & Hv).
     split; [exact (format_not_json_file f k s orc chunk v Hwf Horc Hk Hkind Hval Hv Hc Hmax)|lia].
